@@ -13,6 +13,11 @@ Models (they mirror the code that exists, error classes and order of checks incl
   ImmuModel/Store/SyncRepl.lean the acknowledgement protocol of synchronous replication
                                 (`mayUpdateReplicaState`, `ExportTxByID` state checks, one `fetchNextTx` round)
   ImmuModel/Store/ReplicaSpec.lean  vocabulary: operation sequences, genuine history, `SameTx`.
+  ImmuModel/Store/ReplicaDisk.lean  the replica store WITH ITS DISK: which tx-log records are fsynced (`fs`), the
+                                watermark wait (`durableReached`), close/reopen and power loss (`crash`) on that
+                                disk, and `AckOnDisk`: the acknowledged prefix (first `durable` records of the chain
+                                = what `PrecommittedAlh()` reports to the primary, what `ReplicateTx` returned for)
+                                consists of committed and FSYNCED live records.
 
 THE PROPERTY SENTENCE "an exported transaction … whose content was altered is rejected without
 effect" IS NOT TRUE OF THE CODE AS WRITTEN and is therefore not a theorem here.  What IS proved:
@@ -31,6 +36,19 @@ lower a granted commit allowance (`allowance_survives_discard`), a transaction w
 stored with the `BlRoot` left in the pooled `Tx` (`stale_blroot_breaks_rereplication`; hence
 `replica_prefix_partial`).  The proved part of "altered
 header is detected" is `altered_header_detected_partial`.
+
+ACKNOWLEDGEMENTS ONLY COVER DURABLE STATE (section 6).  Proved: `AckOnDisk` is an invariant of every
+operation sequence without close/reopen on a Synced store, from the empty store and from any state
+that satisfies it (`ack_covers_only_fsynced_records`, `ack_on_disk_preserved` — `discardSince` has to
+recede the watermark for this), close/reopen keeps it when everything written had been fsynced
+(`restart_after_full_sync_keeps_ack_on_disk`), a power loss keeps the acknowledged prefix when no
+discarded record lies in the fsynced part of the tx log (`acked_prefix_survives_crash_partial`), the
+id-level protocol never reports more than the replica holds (`replica_reports_within_held`).  Proved
+FALSE of the code as written (witnesses, both confirmed on the real store by the harness and
+registered as known findings): close/reopen marks re-loaded records durable that were never fsynced
+(`restart_marks_unfsynced_precommit_durable`), and after a discard + re-replication a power loss
+brings the DISCARDED transaction back under the acknowledged id
+(`discarded_record_shadows_acked_after_crash`).
 -/
 import ImmuModel.Tx.Proofs.ExportRT
 import ImmuModel.Store.Proofs.ReplicaHdr
@@ -39,6 +57,9 @@ import ImmuModel.Store.Proofs.ReplicaPrefix
 import ImmuModel.Store.Proofs.SyncProofs
 import ImmuModel.Store.Proofs.ReplicaMisc
 import ImmuModel.Store.Proofs.ReplicaChain
+import ImmuModel.Store.Proofs.AckDurable
+import ImmuModel.Store.Proofs.AckCrash
+import ImmuModel.Store.Proofs.SyncAck
 
 namespace ImmuModel.Props.C07
 open ImmuModel ImmuModel.Tx ImmuModel.Merkle ImmuModel.GoInt ImmuModel.Replica ImmuModel.SyncRepl
@@ -399,7 +420,91 @@ theorem reports_bounded (s0 : Sys) (c0 : Nat) (h0 : s0.Init c0) (evs : List Ev) 
     ∀ x ∈ (s0.run evs).reports, x.2 ≤ (s0.run evs).prim.pre :=
   reports_bounded_aux s0 c0 h0 evs
 
+-- =============================================================== 6. acknowledgements only cover durable state
+
+/-- **The watermark never runs ahead of the disk.** On a Synced store, after ANY sequence of
+deliveries of arbitrary bytes, syncs, discards, allowances and power losses (no close/reopen, see
+`restart_marks_unfsynced_precommit_durable`), the acknowledged prefix of the chain — its first
+`durable` records: what `PrecommittedAlh()` reports to the primary, what `ReplicateTx` has returned
+for, what `WaitForTx(id, allowPrecommitted)` lets pass — lies between the committed and the
+in-memory precommitted state and consists of committed records and FSYNCED live records of the tx
+log.  In particular after a discard and the re-replication of the same ids the new records are not
+acknowledged before the next fsync. -/
+theorem ack_covers_only_fsynced_records (hs : Hs D) (cfg : RCfg) (hsy : cfg.synced = true) (ops : List DOp)
+    (hno : DOp.restart ∉ ops) : AckOnDisk ((DSt.init cfg : DSt D).run hs ops) :=
+  AckDurableAux.ackOnDisk_of_num (AckDurableAux.num_run hs ops _ hsy (AckDurableAux.num_init cfg) hno).1
+
+/-- The same as a step property, from ANY state that satisfies it. -/
+theorem ack_on_disk_preserved (hs : Hs D) (d : DSt D) (hsy : d.st.cfg.synced = true) (h : AckOnDisk d)
+    (op : DOp) (hop : op ≠ .restart) : AckOnDisk (d.apply hs op) :=
+  AckDurableAux.ackOnDisk_of_num (AckDurableAux.num_apply hs d hsy (AckDurableAux.num_of_ackOnDisk h) op hop).1
+
+/-- The wait inside `ReplicateTx` / `WaitForTx(id, allowPrecommitted)` passes exactly for the ids
+the watermark has reached. -/
+theorem wait_passes_iff_within_watermark (st : RSt D) (id : Nat) :
+    st.durableReached id = true ↔ id ≤ st.durable := by
+  unfold RSt.durableReached
+  exact decide_eq_true_iff
+
+/-- Close/reopen keeps the invariant when every record written so far had been fsynced. -/
+theorem restart_after_full_sync_keeps_ack_on_disk (hs : Hs D) (d : DSt D) (hfs : d.fs = d.st.log.length)
+    (hg : d.st.ghost = none ∨ d.gfs = true) : AckOnDisk (d.restart hs) :=
+  AckDurableAux.ackOnDisk_of_num (AckDurableAux.num_restart_of_synced hs d hfs hg)
+
+/-- **Finding (witness of the negation for close/reopen).** A precommitted record that was written
+and never fsynced, then `Close()` + `Open()`: `Open` re-loads it and marks it durable
+(`durablePrecommitWHub.DoneUpto(precommittedTxID)`) although `Close` only flushed — the replica now
+acknowledges a transaction a power loss would lose. -/
+theorem restart_marks_unfsynced_precommit_durable (hs : Hs D) (d : DSt D) (r : RRec D)
+    (hlog : d.st.log = [(r, true)]) (hg : d.st.ghost = none) (hfs : d.fs = 0)
+    (hid : r.hdr.id = d.st.committed.length + 1) (hprev : r.hdr.prevAlh = hs.enc (d.st.committedAlh hs)) :
+    (d.restart hs).st.durable = d.st.committed.length + 1 ∧ (d.restart hs).fs = 0 ∧ ¬ AckOnDisk (d.restart hs) :=
+  AckCrashAux.restart_marks_unfsynced_durable hs d r hlog hg hfs hid hprev
+
+/-- **A power loss keeps what was acknowledged** — PARTIAL: under the hypothesis that no discarded
+record lies in the fsynced part of the tx log (e.g. no discard since the last open).  The chain is
+well-formed (`replica_holds_wellformed_chain`).  The full statement (no hypothesis `hlive`) is FALSE
+of the code: `discarded_record_shadows_acked_after_crash`. -/
+theorem acked_prefix_survives_crash_partial (hs : Hs D) (d : DSt D) (h : AckOnDisk d) (hch : ChainOK hs d.st.chain)
+    (hlive : ∀ x ∈ d.st.log.take d.fs, x.2 = true) :
+    (d.crash hs).st.chain.take d.st.durable = d.st.chain.take d.st.durable ∧
+    d.st.durable ≤ (d.crash hs).st.durable :=
+  AckCrashAux.crash_keeps_acked hs d h hch hlive
+
+/-- **Finding (witness).** The tx log holds, both fsynced, a DISCARDED record `ra` and behind it the
+live record `rb` that was replicated under the same id afterwards (discard + re-replication + sync);
+the watermark covers `rb`: the replica has acknowledged `rb`.  After a power loss `Open` re-loads
+`ra` (it chains after the committed state) and stops at `rb`: the replica holds, and reports as
+durably precommitted, the discarded transaction under the acknowledged id. -/
+theorem discarded_record_shadows_acked_after_crash (hs : Hs D) (d : DSt D) (ra rb : RRec D)
+    (hlog : d.st.log = [(ra, false), (rb, true)]) (hfs : d.fs = 2)
+    (hdur : d.st.durable = d.st.committed.length + 1)
+    (hid : ra.hdr.id = d.st.committed.length + 1) (hprev : ra.hdr.prevAlh = hs.enc (d.st.committedAlh hs)) :
+    d.st.chain.take d.st.durable = d.st.committed ++ [rb] ∧
+    (d.crash hs).st.chain.take d.st.durable = d.st.committed ++ [ra] ∧
+    d.st.durable ≤ (d.crash hs).st.durable :=
+  AckCrashAux.discarded_record_shadows_acked hs d ra rb hlog hfs hdur hid hprev
+
+/-- Id level (all interleavings of the protocol): what a replica reports as durably precommitted
+never exceeds what it holds — also after a discard. -/
+theorem replica_reports_within_held (s0 : Sys) (c0 : Nat) (h0 : s0.Init c0) (evs : List Ev) :
+    ∀ r ∈ (s0.run evs).repls, r.durable ≤ r.pre :=
+  SyncAckAux.held_run evs (SyncAckAux.held_init h0)
+
 -- =============================================================== non-vacuity
+
+/-- The empty Synced store satisfies `AckOnDisk`; the hypotheses of the two witnesses are satisfiable
+(a store holding exactly the records they name). -/
+example (cfg : RCfg) : AckOnDisk (DSt.init cfg : DSt D) := AckDurableAux.ackOnDisk_of_num (AckDurableAux.num_init cfg)
+example (hs : Hs D) (cfg : RCfg) (r : RRec D) (hid : r.hdr.id = 1) (hp : r.hdr.prevAlh = hs.enc (hs.H [])) :
+    let d : DSt D := { st := { cfg := cfg, log := [(r, true)] } }
+    d.st.log = [(r, true)] ∧ d.st.ghost = none ∧ d.fs = 0 ∧ r.hdr.id = d.st.committed.length + 1 ∧
+      r.hdr.prevAlh = hs.enc (d.st.committedAlh hs) := ⟨rfl, rfl, rfl, hid, hp⟩
+example (hs : Hs D) (cfg : RCfg) (ra rb : RRec D) (hid : ra.hdr.id = 1) (hp : ra.hdr.prevAlh = hs.enc (hs.H [])) :
+    let d : DSt D := { st := { cfg := cfg, log := [(ra, false), (rb, true)], durable := 1 }, fs := 2 }
+    d.st.log = [(ra, false), (rb, true)] ∧ d.fs = 2 ∧ d.st.durable = d.st.committed.length + 1 ∧
+      ra.hdr.id = d.st.committed.length + 1 ∧ ra.hdr.prevAlh = hs.enc (d.st.committedAlh hs) ∧ AckOnDisk d :=
+  ⟨rfl, rfl, rfl, hid, hp, AckDurableAux.ackOnDisk_of_num ⟨Nat.le_refl _, Nat.zero_le _, by simp [RSt.lastPre, RSt.pre], by simp [ReplicaPrefixAux.live]⟩⟩
 
 /-- The empty history is genuine; an empty replica holds its empty prefix. -/
 example (hs : Hs D) (cfg : RCfg) : Genuine hs cfg ([] : List (RRec D)) := ⟨fun i h => absurd h (Nat.not_lt_zero i)⟩
